@@ -167,12 +167,29 @@ type reentry struct {
 
 func runReentries(p *Program, run *ssa.Function) []reentry {
 	var out []reentry
+	// the interpreter is entered through its entry or directly at its loop; the
+	// entry handing over to the loop is not a re-entry
+	targets := []*ssa.Function{run}
+	var entry, loop *ssa.Function
+	if a, _ := p.Anchors(); a != nil {
+		entry, loop = a.vmEntry, a.vmRun
+		for _, t := range []*ssa.Function{entry, loop} {
+			if t != nil && t != run {
+				targets = append(targets, t)
+			}
+		}
+	}
 	for _, fn := range p.LibFns {
 		if fnPkg(fn).Pkg.Path() != Mod+"/vm" {
 			continue
 		}
-		for _, c := range callsTo(fn, run) {
-			out = append(out, reentry{fn, c})
+		for _, t := range targets {
+			if fn == entry && t == loop && entry != loop {
+				continue
+			}
+			for _, c := range callsTo(fn, t) {
+				out = append(out, reentry{fn, c})
+			}
 		}
 	}
 	return out
@@ -256,25 +273,41 @@ func ruleRunReset(p *Program, r *Reporter) {
 	}
 	cacheReset, stackReset := false, false
 	clear := p.Fn("stack.(*Stack).Clear")
-	for _, b := range a.vmRun.Blocks {
-		for _, ins := range b.Instrs {
-			switch x := ins.(type) {
-			case *ssa.Store:
-				if fieldKey(x.Addr) == "vm.VM.fields" {
-					if _, ok := x.Val.(*ssa.MakeMap); ok && dominatesInstr(x, dp) {
-						cacheReset = true
+	// the resets come before the dispatch: in the loop's own function, or — when
+	// the loop has been moved into a function of its own — in the entry, before
+	// it hands over to the loop
+	type scan struct {
+		fn *ssa.Function
+		at ssa.Instruction
+	}
+	scans := []scan{{a.vmRun, dp}}
+	if a.vmEntry != a.vmRun {
+		for _, c := range callsTo(a.vmEntry, a.vmRun) {
+			scans = append(scans, scan{a.vmEntry, c.(ssa.Instruction)})
+		}
+	}
+	for _, sc := range scans {
+		dp := sc.at
+		for _, b := range sc.fn.Blocks {
+			for _, ins := range b.Instrs {
+				switch x := ins.(type) {
+				case *ssa.Store:
+					if fieldKey(x.Addr) == "vm.VM.fields" {
+						if _, ok := x.Val.(*ssa.MakeMap); ok && dominatesInstr(x, dp) {
+							cacheReset = true
+						}
 					}
-				}
-				if fieldKey(x.Addr) == "vm.VM.stack" && dominatesInstr(x, dp) {
-					// a fresh stack also counts
-					if c, ok := x.Val.(*ssa.Call); ok && c.Call.StaticCallee() != nil && c.Call.StaticCallee().Name() == "New" {
-						stackReset = true
+					if fieldKey(x.Addr) == "vm.VM.stack" && dominatesInstr(x, dp) {
+						// a fresh stack also counts
+						if c, ok := x.Val.(*ssa.Call); ok && c.Call.StaticCallee() != nil && c.Call.StaticCallee().Name() == "New" {
+							stackReset = true
+						}
 					}
-				}
-			case *ssa.Call:
-				if clear != nil && x.Call.StaticCallee() == clear && dominatesInstr(x, dp) {
-					if u, ok := x.Call.Args[0].(*ssa.UnOp); ok && fieldKey(u.X) == "vm.VM.stack" {
-						stackReset = true
+				case *ssa.Call:
+					if clear != nil && x.Call.StaticCallee() == clear && dominatesInstr(x, dp) {
+						if u, ok := x.Call.Args[0].(*ssa.UnOp); ok && fieldKey(u.X) == "vm.VM.stack" {
+							stackReset = true
+						}
 					}
 				}
 			}
@@ -399,7 +432,7 @@ func ruleFrameRestore(p *Program, r *Reporter) {
 		return
 	}
 	ss := swapSet(p, a.vmRun)
-	res := runReentries(p, a.vmRun)
+	res := runReentries(p, a.vmEntry)
 	// a function that re-enters the interpreter may do the swap itself: the
 	// VM fields it stores before the re-entry count too
 	for _, re := range res {
@@ -480,6 +513,35 @@ func ruleFrameRestore(p *Program, r *Reporter) {
 								}
 							}
 							if _, isP := o.(*ssa.Parameter); isP {
+								ok = true
+							}
+						}
+					}
+				}
+			}
+			if !ok {
+				// the saved value may travel in another form (a field of a struct
+				// that is handed to a named clean-up function, say): follow it to
+				// where it was read
+				for _, body := range deferredBodies(re.fn, re.call) {
+					for _, b := range body.Blocks {
+						for _, ins := range b.Instrs {
+							st, isSt := ins.(*ssa.Store)
+							if !isSt {
+								continue
+							}
+							n, ff, isF := fieldOf(st.Addr)
+							if !isF || n == nil || n.Obj().Name() != "VM" || ff != f {
+								continue
+							}
+							origins := traceSaved(p, body, st.Val, 0)
+							all := len(origins) > 0
+							for _, o := range origins {
+								if !readOfFieldBeforeStore(o, "VM", f) {
+									all = false
+								}
+							}
+							if all {
 								ok = true
 							}
 						}
@@ -637,6 +699,28 @@ func capturedParam(fn, closure *ssa.Function, fv *ssa.FreeVar) int {
 	return -1
 }
 
+// readOfFieldBeforeStore: the origin is a read of <owner>.<field> that no store
+// to that field in its function comes before.
+func readOfFieldBeforeStore(o savedValue, owner, field string) bool {
+	ld, ok := o.v.(*ssa.UnOp)
+	if !ok || ld.Op != token.MUL {
+		return false
+	}
+	if nm, ff, ok := fieldOf(ld.X); !ok || nm == nil || nm.Obj().Name() != owner || ff != field {
+		return false
+	}
+	for _, b := range o.fn.Blocks {
+		for _, ins := range b.Instrs {
+			if st, ok := ins.(*ssa.Store); ok {
+				if nm, ff, ok := fieldOf(st.Addr); ok && nm != nil && nm.Obj().Name() == owner && ff == field && dominatesInstr(st, ld) {
+					return false
+				}
+			}
+		}
+	}
+	return true
+}
+
 // depthReadBeforeOpen: the closure's free variable is a local of fn whose only
 // value is a reading of the scope depth made before fn opens any scope.
 func depthReadBeforeOpen(p *Program, er *envRoles, fn, closure *ssa.Function, fv *ssa.FreeVar) (bool, string) {
@@ -705,7 +789,7 @@ func ruleScopeRestore(p *Program, r *Reporter) {
 
 	// (2) every re-entry is under a deferred truncation to a depth read before
 	// the callee's scope was opened
-	for _, re := range runReentries(p, a.vmRun) {
+	for _, re := range runReentries(p, a.vmEntry) {
 		key := p.FnName(re.fn) + " re-enters the interpreter: scopes restored by depth"
 		if re.fn == a.vmRun {
 			r.Fail(key, p.Pos(re.call.Pos()), "the interpreter calls itself for a function body with no deferred scope restoration")
@@ -724,6 +808,36 @@ func ruleScopeRestore(p *Program, r *Reporter) {
 							// itself, before it opened the callee's scope
 							localOK, localWhy = depthReadBeforeOpen(p, er, re.fn, body, fv)
 						}
+					}
+				}
+				if paramIdx < 0 && !localOK {
+					// the depth may travel in another form (a field of a struct
+					// handed to a named clean-up function): follow it to where
+					// it was read
+					origins := traceSaved(p, body, c.Common().Args[1], 0)
+					all := len(origins) > 0
+					for _, o := range origins {
+						dc, isCall := o.v.(*ssa.Call)
+						if !isCall || dc.Call.StaticCallee() != er.depth {
+							all = false
+							continue
+						}
+						for _, opener := range scopeOpeners(p, er) {
+							for _, open := range callsTo(o.fn, opener) {
+								before := false
+								for _, c2 := range callsTo(o.fn, re.fn) {
+									if dominatesInstr(open.(ssa.Instruction), c2.(ssa.Instruction)) {
+										before = true
+									}
+								}
+								if before && !dominatesInstr(dc, open.(ssa.Instruction)) {
+									all, localWhy = false, "the scope depth is read ("+p.Pos(dc.Pos())+") after the callee's scope was opened ("+p.Pos(open.Pos())+"): that scope survives the call"
+								}
+							}
+						}
+					}
+					if all {
+						localOK = true
 					}
 				}
 			}
@@ -763,7 +877,7 @@ func ruleScopeRestore(p *Program, r *Reporter) {
 	}
 	// (3) Execute truncates to zero in a deferred call
 	var runCall ssa.CallInstruction
-	for _, c := range callsTo(a.execute, a.vmRun) {
+	for _, c := range callsTo(a.execute, a.vmEntry) {
 		runCall = c
 	}
 	if runCall == nil {
@@ -813,7 +927,7 @@ func ruleScopePair(p *Program, r *Reporter) {
 	}
 	run := a.vmRun
 	// (1) every re-entry path from the dispatch loop opens a scope first
-	for _, re := range runReentries(p, run) {
+	for _, re := range runReentries(p, a.vmEntry) {
 		// the call in Run that leads to the re-entry (directly or via a wrapper)
 		var sites []ssa.CallInstruction
 		if re.fn == run {
@@ -1497,7 +1611,7 @@ func balancedState(p *Program, k string) string {
 								}
 								if bo.Op == token.SUB {
 									decs++
-									if fn.Parent() == nil || !isDeferredBody(fn) {
+									if !(fn.Parent() != nil && isDeferredBody(fn)) && !onlyDeferred(p, fn) {
 										balanced = false
 									}
 									continue
@@ -1562,6 +1676,27 @@ func isDeferredBody(fn *ssa.Function) bool {
 		}
 	}
 	return false
+}
+
+// onlyDeferred: fn is a named function that library code only ever invokes by
+// a defer statement (a clean-up function).
+func onlyDeferred(p *Program, fn *ssa.Function) bool {
+	n := 0
+	for _, g := range p.LibFns {
+		for _, b := range g.Blocks {
+			for _, ins := range b.Instrs {
+				cc := callOf(ins)
+				if cc == nil || cc.StaticCallee() != fn {
+					continue
+				}
+				if _, isDefer := ins.(*ssa.Defer); !isDefer {
+					return false
+				}
+				n++
+			}
+		}
+	}
+	return n > 0
 }
 
 // hasDeferredUndo: root defers (directly, or in a deferred closure) the
